@@ -1,0 +1,10 @@
+//go:build verif
+
+package memory
+
+// VerifGate is called between the two phases of the garbage collector (after the scan under the read lock, before
+// the sweep under the write lock) when the package is built with the `verif` tag; a conformance harness may run
+// store operations in it, which is exactly what another goroutine can do at that point.
+var VerifGate = func(string) {}
+
+func verifGate(point string) { VerifGate(point) }
